@@ -218,10 +218,13 @@ def gen_term(rnd, sites, qn_size, max_body=3, charge=None, hermitian_factors=Fal
     if charge is not None and tot != list(charge):
         return None
     mag = 10 ** rnd.uniform(-2, 1) * scale
+    if scale != 1.0 and rnd.random() < 0.3:
+        mag = 10 ** rnd.uniform(-7, 1) * scale      # couplings spanning many orders of magnitude (only in "units" runs)
+    r6 = (lambda v: round(v, 6)) if scale == 1.0 else (lambda v: float(f"{v:.6g}"))
     if rnd.random() < 0.25:
-        f = [round(mag * rnd.uniform(-1, 1), 6), round(mag * rnd.uniform(-1, 1), 6)]
+        f = [r6(mag * rnd.uniform(-1, 1)), r6(mag * rnd.uniform(-1, 1))]
     else:
-        f = [round(mag * rnd.choice([-1, 1]), 6), 0.0]
+        f = [r6(mag * rnd.choice([-1, 1])), 0.0]
     return {"sym": " ".join(syms), "dofs": [list(d) if isinstance(d, tuple) else d for d in dofs], "factor": f, "qn": qns}
 
 
@@ -236,7 +239,7 @@ def gen_terms(rnd, sites, qn_size, nmin=1, nmax=6, charge=None, scale=1.0):
             out.append(t)
             if rnd.random() < 0.15:  # duplicates / partial cancellation
                 t2 = dict(t)
-                t2["factor"] = [round(-t["factor"][0] * rnd.choice([1.0, 0.5]), 6), t["factor"][1]]
+                t2["factor"] = [float(f"{-t['factor'][0] * rnd.choice([1.0, 0.5]):.6g}") if scale != 1.0 else round(-t["factor"][0] * rnd.choice([1.0, 0.5]), 6), t["factor"][1]]
                 out.append(t2)
     return out
 
